@@ -47,6 +47,26 @@ def families(tier, seed, b):
                 r = B.opnd(("S", v))
                 B.add({"op": "call", "fn": fn, "args": [r], "tag": "main"})
                 progs.append(B.build())
+    # a boolean-typed object holding a value that is NOT 0/1 exists wherever checks are off (ignore-errors mode, a false guard):
+    # every operator of the boolean class must still keep value and wire together on it
+    for v in (-1, 2, 5):
+        for mode in ("ign", "g0", "g0ign"):
+            for nm, mk in (("invert", lambda r: {"op": "un", "name": "invert", "a": r}), ("neg", lambda r: {"op": "un", "name": "neg", "a": r}),
+                           ("and1", lambda r: {"op": "bin", "name": "and", "a": r, "b": {"b": True}}), ("xor1", lambda r: {"op": "bin", "name": "xor", "a": r, "b": {"c": 1}}),
+                           ("orself", lambda r: {"op": "bin", "name": "or", "a": r, "b": r}), ("mul", lambda r: {"op": "bin", "name": "mul", "a": r, "b": r}),
+                           ("inv2", None)):
+                B = gen.Builder("b%d/nonbool/%s/%d/%s" % (b, nm, v, mode), mode, None, {"op": "nonbool_" + nm, "kinds": "S"})
+                r = B.opnd(("S", v))
+                base = gen.Builder.body_base(B.nreg, mode, "lc")
+                B.add({"op": "call", "fn": "LinCombBool", "args": [r]})
+                if nm == "inv2":
+                    B.add({"op": "un", "name": "invert", "a": {"r": base}})
+                    B.add({"op": "un", "name": "invert", "a": {"r": base + 1}, "tag": "main"})
+                else:
+                    st = mk({"r": base})
+                    st["tag"] = "main"
+                    B.add(st)
+                progs.append(B.build())
     # from_bits is public API: any secrets (not only 0/1), constants and booleans, also with checks off
     for vals in ((0, 1), (1, 1), (3, 1), (2, 3), (-1, 2), (1, 0, 1), (3, 3, 1)):
         for kinds in ("S", "SB", "mix"):
